@@ -26,18 +26,18 @@ EXHAUSTIVE = {"quick": ["68 one-granule files + 1", "28+28+12 granules exactly f
 
 def _sized(kind, need, slack, k):
     """file description whose stream needs exactly `need` granules"""
-    over = 10 if kind == "ml" else 3 if kind == "basic" else 0
+    over = 10 if kind in ("ml", "ml_ascii") else 3 if kind == "basic" else 0
     lo = max(0, (need - 1) * 2304 - over)
     hi = need * 2304 - over - 1
     n = max(lo, hi - slack) if slack >= 0 else lo
     n = max(lo, min(hi, n))
     # mostly plain names; a few as they come off a tape whose name field is NUL padded (the tool stores NUL as blank)
     name = {7: "AB\0\0\0\0\0\0", 8: "\0" * 8, 9: "\0X%d" % (k % 50)}.get(k % 10, "F%d" % (k % 1000))
-    return dict(name=name, ext="DAT", kind=kind, ftype={"ml": 2, "basic": 0, "ascii": 1}[kind],
-                dtype=0xFF if kind == "ascii" else 0, load=0x2000, exec=0x2001, data=dict(n=n, k=k, mode=2, head="", tail=""))
+    return dict(name=name, ext="DAT", kind=kind, ftype={"ml": 2, "basic": 0, "ascii": 1, "ml_ascii": 2}[kind],
+                dtype=0xFF if kind in ("ascii", "ml_ascii") else 0, load=0x2000, exec=0x2001, data=dict(n=n, k=k, mode=2, head="", tail=""))
 
 
-_kind = st.sampled_from(["ml", "basic", "ascii"])
+_kind = st.sampled_from(["ml", "basic", "ascii", "ml", "basic", "ascii", "ml_ascii"])   # ml_ascii: type 2 flagged ASCII, stored as machine language
 _small = st.builds(_sized, _kind, st.just(1), st.integers(-1, 2304), st.integers(0, 10 ** 6))
 _large = st.builds(_sized, _kind, st.integers(2, 28), st.integers(-1, 40), st.integers(0, 10 ** 6))
 _any = st.builds(_sized, _kind, st.integers(1, 12), st.integers(-1, 2304), st.integers(0, 10 ** 6))
